@@ -6,13 +6,14 @@ Line protocol of the C03 driver (one reply line per request line).
 
   `<kind> <op> <op> …`   run the history on `Gen.CacheTable.table` from a freshly constructed model and print,
                           after each op, the observable cache state (and the answer description of calls)
-  `X <kind> <depth> full|ops`  enumerate ALL histories up to `depth` on the model (17-symbol alphabet with the eight
+  `X <kind> <depth> full|ops`  enumerate ALL histories up to `depth` on the model (22-symbol alphabet with the ten
                           settings cells, or the 9 operation kinds) and check the executable invariant at every
                           state and `answer is current ∧ = answer of the rebuilt model` at every call
 
 kinds: exact kiss sgpr svgp usvgp
-ops:   P0..P5 (predict under an exact-path settings cell), Q1 Q2 (predict under accuracy-degrading settings),
-       R (prior-mode call), T, E, S, D, L, B,
+ops:   P0..P5 P8 P9 (predict under an exact-path settings cell), Q1 Q2 (predict under accuracy-degrading settings),
+       R (prior-mode call), T, E, S, D Dt Di (set_train_data: both / targets only / inputs only),
+       L Lo (load_state_dict: current / old-format dict without `updated_strategy`), B,
        Fo Fe Fc Fl (get_fantasy_model: ok / rejected early / raised inside deepcopy / rejected late)
 -/
 
@@ -22,14 +23,16 @@ def parseKind : String → Option Kind
   | "exact" => some .exact | "kiss" => some .kiss | "sgpr" => some .sgpr
   | "svgp" => some .svgp | "usvgp" => some .usvgp | _ => none
 
-def cells : List Cell := [.default, .fastPredVar, .eagerKernels, .cg, .noDetach, .skipVar, .degradedRoot, .degradedCG]
+def cells : List Cell := [.default, .fastPredVar, .eagerKernels, .cg, .noDetach, .skipVar, .degradedRoot, .degradedCG, .lazyJoint, .traceMode]
 
 def parseOp : String → Option Op
   | "P0" => some (.predict .default) | "P1" => some (.predict .fastPredVar) | "P2" => some (.predict .eagerKernels)
   | "P3" => some (.predict .cg) | "P4" => some (.predict .noDetach) | "P5" => some (.predict .skipVar)
   | "Q1" => some (.predict .degradedRoot) | "Q2" => some (.predict .degradedCG)
+  | "P8" => some (.predict .lazyJoint) | "P9" => some (.predict .traceMode)
   | "R" => some .priorPredict | "T" => some .train | "E" => some .eval | "S" => some .step
-  | "D" => some .setTrainData | "L" => some .loadStateDict | "B" => some .backward
+  | "D" => some (.setTrainData .both) | "Dt" => some (.setTrainData .targetsOnly) | "Di" => some (.setTrainData .inputsOnly)
+  | "L" => some (.loadStateDict false) | "Lo" => some (.loadStateDict true) | "B" => some .backward
   | "Fo" => some (.fantasy .ok) | "Fe" => some (.fantasy .rejectedEarly)
   | "Fc" => some (.fantasy .raisedInCopy) | "Fl" => some (.fantasy .rejectedLate)
   | _ => none
@@ -48,7 +51,7 @@ def showKeys (s : State) : String :=
     else "-"
   let memo := ",".intercalate ((live s isMemo).map slotName)
   let attrs := ",".intercalate ((live s fun sl => sl == sKMat || sl == sKInvRoot).map slotName)
-  s!"ps={ps};memo={memo};attrs={attrs};tr={if s.training then 1 else 0};v={s.pv}.{s.dv}"
+  s!"ps={ps};memo={memo};attrs={attrs};tr={if s.training then 1 else 0};v={s.pv}.{s.dv};conv={if s.converts then 1 else 0}"
 
 def showAnswer (a : Answer) : String :=
   let used := ",".intercalate (a.used.map fun u => s!"{slotName u.slot}@{u.pv}.{u.dv}")
@@ -75,13 +78,15 @@ def runLine (k : Kind) (ops : List Op) : String :=
 /-! ### exhaustive enumeration on the model -/
 
 /-- `full = true`: 6 predict cells + R T E S D L B + F (outcome the model expects) + F raising inside deepcopy
-(17 symbols); `full = false`: the 9 operation kinds with predict under default settings. -/
+(22 symbols: + targets-only / inputs-only set_train_data, old-format load_state_dict); `full = false`: the 9 operation kinds with predict under default settings. -/
 def alphabet (full : Bool) : List (State → Op) :=
   let fant : State → Op := fun s => .fantasy (if fantasyAccepts T s then .ok else .rejectedEarly)
   let base : List (State → Op) :=
-    [fun _ => .priorPredict, fun _ => .train, fun _ => .eval, fun _ => .step, fun _ => .setTrainData,
-     fun _ => .loadStateDict, fun _ => .backward, fant]
-  if full then (cells.map fun c => fun _ => Op.predict c) ++ base ++ [fun _ => .fantasy .raisedInCopy]
+    [fun _ => .priorPredict, fun _ => .train, fun _ => .eval, fun _ => .step, fun _ => .setTrainData .both,
+     fun _ => .loadStateDict false, fun _ => .backward, fant]
+  if full then (cells.map fun c => fun _ => Op.predict c) ++ base ++
+    [fun _ => .fantasy .raisedInCopy, fun _ => .setTrainData .targetsOnly, fun _ => .setTrainData .inputsOnly,
+     fun _ => .loadStateDict true]
   else (fun _ => Op.predict .default) :: base
 
 structure Tally where
